@@ -29,9 +29,15 @@ CHECKS = {
     "C09": ("model_checking", MC,
             "After every commit of the traversal every stored private key of every member is tested against the public key of the corresponding node of the exported tree (HPKE seal/open as black box); blank nodes must carry no key; committer path keys must be fresh.",
             "Trusted: explorer, reference tree parser, hook verif_private_keys (read-only). Same bounds as C01.", "DESIGN.md 2/C09"),
+    "C11": ("model_checking", MC,
+            "Three real members race in one epoch; every interleaving (to the depth bound) of commit / commit_detached / clear / apply / apply_detached with any kept secrets / delivery of any candidate commit, with any candidate as the epoch's winner, is executed and judged against a reference machine {epoch, pending} per member, complete-state equality for what must not change, and the epoch ledger for what advances.",
+            "Trusted: explorer, hook verif_state. 3 members, depth 4 (quick) / 6 (thorough), public and encrypted handshake.", "DESIGN.md 2/C11"),
+    "C15": ("fault_enumeration", "exhaustive single and pairwise storage-fault enumeration on every operation of every explored history (real implementation, harness-owned stores with a fault plan)",
+            "For every history (to the depth bound) of a target member and every operation in it, every storage call the operation makes is failed once and in pairs on forks: the operation must fail, leave complete state and stores unchanged, and a fault-free retry must end exactly like the fault-free twin.",
+            "Trusted: explorer, harness stores implementing the documented store semantics (the shipped stores are exercised in C06/C19), hook verif_state. Faults are injected between trait calls; torn writes inside one call are out of reach of the seam.", "DESIGN.md 2/C15"),
 }
 
-NOT_YET = "check not built yet (work in progress; see DESIGN.md section 2)"
+NOT_YET ="check not built yet (work in progress; see DESIGN.md section 2)"
 
 def main():
     hooks_commits = subprocess.run(["git", "-C", "/repo", "log", "--format=%h %s", "--grep=verif hooks"], capture_output=True, text=True).stdout.strip().splitlines()
